@@ -914,6 +914,7 @@ def run(rep):
             rep.finding('unlisted', {'family': r['family'], 'length': r['length'], 'exit_status': r['status'], 'what': r['problems'][:4], 'stderr': r['stderr'],
                                      'config': r.get('config', '')})
     __import__('c18seq').stage(rep, tools, sc, rng)     # position family: the failing path in the middle of an action list
+    import envlen; envcov = envlen.stage(rep, sc, tools, tier=rep.tier); envcov['unit'] = envlen.unit(rep, sc, rep.tier)   # HOME / TMPDIR / TZ / host name around their buffer sizes
     unit = unit_paths(rep, sc)
     if unit['model_mismatches'] and not rep.violations:
         rep.violation({'obligation': 'correspondence util.c (pathjoin, pathslice) <-> Model/Flags.lean', 'disagreements': unit['model_mismatches'],
@@ -922,8 +923,12 @@ def run(rep):
     if ustart['model_mismatches'] and not rep.violations:
         rep.violation({'obligation': 'correspondence mdsort.c (defaultconf, readenv) <-> Model/Start.lean', 'disagreements': ustart['model_mismatches'],
                        'examples': ustart['model_examples']}, False)
+    if envcov['unit']['model_mismatches'] and not rep.violations:
+        rep.violation({'obligation': 'correspondence mdsort.c (readenv incl. TZ) <-> Model/Start.lean', 'disagreements': envcov['unit']['model_mismatches'],
+                       'examples': envcov['unit']['model_examples']}, False)
     vlib.lean_conclude(rep)
     rep.coverage.update({
+        'environment_length': envcov,
         'unit_start': ustart,
         'start_rule': 'no -f option: HOME a real directory of PATH_MAX-16 .. PATH_MAX-10 characters holding the real .mdsort.conf and a decoy configuration '
                       'under every proper prefix of that name, in a normal run, with -n and with -d: fits (HOME + 13 < PATH_MAX) => exactly that file is '
